@@ -80,9 +80,11 @@ HAND_TOUCHED = {
     "polymer_micelle": {"ndensity", "ndensity.lower", "ndensity.upper"},
     "rpa": {p + s for p in ("La", "Lb", "Lc", "Ld") for s in ("", ".lower", ".upper")},
     "spherical_sld": {"n_shells"} | {"func_inter%d" % k for k in range(0, 11)},
-    "teubner_strey": {"scale", "c1", "c2"},
+    "teubner_strey": {"scale", "c1", "c2", "volfraction_a", "xi", "d", "sld_a", "sld_b"},
     "pearl_necklace": set(),
 }
+# old names a hand conversion reads although the table does not list them
+HAND_EXTRA = {"teubner_strey": ["c1", "c2"]}
 FUNC_INTER = ["Erf(|nu|*z)", "RPower(z^|nu|)", "LPower(z^|nu|)", "RExp(-|nu|*z)", "LExp(-|nu|*z)"]
 
 
@@ -129,6 +131,8 @@ class Entry(object):
                     back = {o: n for n, o in ent2[1].items() if o is not None}
                     pairs = [(o, back.get(n, n)) for o, n in pairs]
                     self.tables.append(later)
+        if self.version == (3, 1, 2):
+            pairs += [(o, None) for o in HAND_EXTRA.get(key, [])]
         olds = [o for o, _ in pairs]
         news = [n for _, n in pairs]
         for common in ("scale", "background"):
@@ -141,6 +145,8 @@ class Entry(object):
         for old, new in pairs:
             it = Item()
             it.old, it.kind = old, "plain"
+            if new is None:     # consumed by the hand conversion
+                it.kind, new = "consumed", old
             final = new
             for prefix, suffix in MAG_PREFIX.items():
                 if new.startswith(prefix):
@@ -390,7 +396,7 @@ def _one(r, convert, ent, pars, olds, mv, us, mode, label, extra=()):
         if site.startswith("_hand_convert_3"):
             fk["model"] = ent.current
             fk["given"] = "complete" if len(olds) == len(ent.items) else "subset"
-        r.fail("%s raised %s: %s" % (call, type(exc).__name__, exc), fk, sub, nt=nt, branches=branches)
+        _finish(r, [("%s raised %s: %s" % (call, type(exc).__name__, exc), fk)], sub, nt, branches, "crash")
         return
 
     if mode == "identity":
